@@ -5,18 +5,23 @@ import pandas as pd
 from .. import proto
 from ..engine import Finding
 from . import _w5ts as W
+from . import c12 as C12
 
 ID = 'C03'
 TITLE = 'alignment puts all timeseries on the prescribed common index, values intact'
-LEAN_FILES = ['Basic', 'TSBasic', 'Fill', 'FillDriver', 'Align', 'AlignDriver', 'FillLemmas', 'FillIndep', 'AlignLemmas', 'AlignAsOf', 'AlignTree', 'C03']
+LEAN_FILES = ['Basic', 'TSBasic', 'Fill', 'FillDriver', 'Align', 'AlignDriver', 'FillAlias', 'FillLemmas', 'FillIndep', 'FillRows', 'FillEdge', 'FillAliasLemmas', 'AlignLemmas', 'AlignAsOf', 'AlignTree', 'AlignLimit', 'AlignFill', 'C12', 'C03']
 RULE = ('distinct protocol lines (container, join policy, fill method, column policy) on which the implementation returned a value '
         'and the container holds at least two timeseries / arrays with different indices / lengths')
 TRUSTED = ['correspondence harness (pv.engine, pv.proto, pv.props._w5ts) and generators of pv.props.c03',
            'Lean driver parser/printer (PygModel/Basic.lean, TSBasic.lean, FillDriver.lean, AlignDriver.lean)']
 ASSUMPTIONS = ['pandas: Index.intersection/union of sorted DatetimeIndexes are the sorted set operations; reindex(index) is a lookup; '
                'reindex(index, method=ffill|bfill) of a NaN-free sorted object is the as-of / next-observation lookup (reference functions of PygModel/Align.lean, sampled)',
-               'indices are sorted and duplicate-free; explicit indices likewise; limit=None; method lists, numeric / other fill methods go through the C12 model and are not generated here',
-               'nested tuples (_list does not descend into them: members reindexed, not counted for the joint index) are outside the statement (nested lists/dicts) and generated only lightly, against the model; dict keys never equal "index"',
+               'reindex(index, method, limit) of a NaN-free sorted object onto a sorted index: of the requested labels landing inexactly on one observation only the first `limit` '
+               '(from the observation outwards) get it (libalgos.pad / backfill; reference limAux of PygModel/Align.lean, sampled)',
+               'indices are sorted and duplicate-free; explicit indices likewise; limit in {None, 1, 2, 3} (limit=0 not generated); method lists and numeric / other fill methods '
+               '(outside the quantifier, which names None / ffill / bfill) go through the C12 model for the tail of the list and are generated lightly',
+               'nested tuples (_list does not descend into them: members reindexed, not counted for the joint index) are outside the statement (nested lists/dicts) and generated only lightly, against the model',
+               'presync with join naming a parameter: the named argument is a timeseries, a pd.Index, an array or dict(index=...); a list / plain dict there (list of indexes, no reindex accepts it) is not generated',
                'the ORDER of the columns after column alignment is not compared (a set in the statement); 2-d arrays and arrays mixed with pandas objects (ValueError) are sampled only lightly',
                'float values are exact multiples of 1/4']
 S = 4
@@ -37,6 +42,8 @@ def enc_tree(x):
         return '(df %s)' % W.enc_frame(x, S)
     if isinstance(x, np.ndarray):
         return '(arr %s)' % W.enc_arr(x, S)
+    if isinstance(x, pd.Index):
+        return '(pi%s)' % ''.join(' ' + W.enc_t(t) for t in x)
     if isinstance(x, list):
         return '(L' + ''.join(' ' + enc_tree(v) for v in x) + ')'
     if isinstance(x, tuple):
@@ -56,6 +63,8 @@ def dec_tree(sx):
         return W.dec_arr1(sx[1], S)
     if h == 'o':
         return proto.dec(sx[1])
+    if h == 'pi':
+        return pd.DatetimeIndex([W.dec_t(a) for a in sx[1:]])
     if h == 'L':
         return [dec_tree(v) for v in sx[1:]]
     if h == 'T':
@@ -66,7 +75,27 @@ def dec_tree(sx):
 
 
 def dec_method(a):
+    """N | ffill | bfill | a method list / tuple / bare method in the spelling of C12"""
+    if isinstance(a, list):
+        return C12.dec_methods(a)
     return None if a == 'N' else a
+
+
+MLISTS = [['ffill', 'bfill'], ['bfill', 'ffill'], ['ffill', 'c:0'], ['bfill', 'c:6'], ['c:0'], ['c:-3'], ['ffill_na'], ['ffill_0'], ['ffill', 'ffill_0'],
+          ['bfill', 'ffill_na'], ['ffill_na', 'bfill'], ['c:4', 'ffill'], ['ffill', 'ffill'], ['backfill'], ['backfill', 'c:0'], ['ffill'], ['bfill'], []]
+
+
+def rand_mlist(rng, removing=True):
+    """a method LIST / tuple / bare numeric method (outside the quantifier; the tail goes through C12's df_fillna)"""
+    ms = list(rng.choice(MLISTS))
+    if removing and rng.random() < 0.12:
+        ms.insert(rng.randint(0, len(ms)), rng.choice(['nona', 'fnna']))
+    sp = 'M1' if len(ms) == 1 and rng.random() < 0.6 else rng.choice(['M', 'M', 'MT'])
+    return C12.enc_methods(ms, sp)
+
+
+def mtag(m):
+    return m if m in METHODS else 'mlist'
 
 
 def enc_join(days, spelling='X'):
@@ -190,6 +219,10 @@ def generate(rng, tier):
         elif r < 0.80:
             if isinstance(tree, tuple):
                 tree = list(tree)   # df_index does not open a tuple (only df_sync / presync open their top-level container)
+            if not any(isinstance(x, (pd.Series, pd.DataFrame, np.ndarray)) for x in flat(tree)):
+                # every timeseries sits inside a nested tuple: df_index sees none, the index is None and `_df_reindex(ts, None, 'ffill')`
+                # returns `_nona(ts)` (thorough tier, g6).  Outside the statement (nested lists / dicts); the model returns the input: not generated
+                continue
             yield dict(tag='reindex-how/%s/%s/%s' % (shape, how, m), lines=['(align reindex %s %s %s)' % (enc_tree(tree), how, m)])
         elif r < 0.88:
             yield dict(tag='index/%s/%s/%s' % (shape, rel, how), lines=['(align index %s %s)' % (enc_tree(tree), how)])
@@ -228,9 +261,122 @@ def generate(rng, tier):
         s = rand_series(rng, rand_days(rng, 'overlap', []), 0.2)
         a = np.array([rng.choice(VALS) for _ in range(rng.choice([0, 1, len(s), len(s), 3]))], dtype=float)
         yield dict(tag='mixed-array-ts', lines=['(align sync %s %s N ij)' % (enc_tree([s, a]), rng.choice(HOWS))])
+    for case in gen_extra(rng, tier):
+        yield case
 
 
-def gen_presynck(rng):
+def gen_extra(rng, tier):
+    """limit on df_reindex, method lists / numeric methods, dict members keyed 'index', pd.Index members, presync(join=<parameter name>)"""
+    big = tier != 'quick'
+    # (1) limit: dense-ish requested labels so that several of them land on one observation
+    for _ in range(6000 if big else 300):
+        with_frames = rng.random() < 0.3
+        members, rel = rand_members(rng, with_frames)
+        tree = wrap(rng, members, rng.choice(['flat-list', 'flat-list-pure', 'flat-dict', 'nested2', 'nested3']))
+        r = rng.random()
+        m = 'ffill' if r < 0.35 else 'bfill' if r < 0.7 else rand_mlist(rng)
+        lim = 'I:%d' % rng.choice([1, 1, 2, 2, 3])
+        if rng.random() < 0.7:
+            days = sorted(rng.sample(range(12), rng.randint(3, 10)))
+            join, jt = enc_join(days, rng.choice(['X', 'X', 'XS', 'XD'])), 'explicit'
+        else:
+            join = jt = rng.choice(HOWS)
+        yield dict(tag='reindex-limit/%s/%s/%s' % (jt, mtag(m), lim), lines=['(align reindex %s %s %s %s)' % (enc_tree(tree), join, m, lim)])
+    # a single series, every requested pattern of a small range: limit 1 / 2 against every gap shape
+    for _ in range(3000 if big else 150):
+        src = sorted(rng.sample(range(10), rng.randint(0, 4)))
+        s_ = rand_series(rng, src, rng.choice([0.0, 0.3]))
+        days = sorted(rng.sample(range(10), rng.randint(1, 10)))
+        m = rng.choice(['ffill', 'bfill'])
+        lim = 'I:%d' % rng.choice([1, 2, 3])
+        yield dict(tag='reindex-limit/single/%s/%s' % (m, lim), lines=['(align reindex %s %s %s %s)' % (enc_tree(s_), enc_join(days), m, lim)])
+    # (2) method lists / numeric methods in df_sync, df_reindex, presync
+    for _ in range(5000 if big else 250):
+        with_frames = rng.random() < 0.35
+        members, rel = rand_members(rng, with_frames)
+        shape = rng.choice(['flat-list', 'flat-dict', 'nested2', 'nested3', 'flat-tuple'])
+        tree = wrap(rng, members, shape)
+        m = rand_mlist(rng)
+        how = rng.choice(HOWS)
+        r = rng.random()
+        if r < 0.5:
+            ch = rng.choice(['ij', 'oj', 'N']) if with_frames else 'ij'
+            yield dict(tag='sync-mlist/%s/%s' % (shape, how), lines=['(align sync %s %s %s %s)' % (enc_tree(tree), how, m, ch)])
+        elif r < 0.8:
+            days = rand_days(rng, 'overlap', [])
+            lim = rng.choice(['N', 'N', 'I:1', 'I:2'])
+            yield dict(tag='reindex-mlist/%s/%s' % (shape, 'lim' if lim != 'N' else 'nolim'),
+                       lines=['(align reindex %s %s %s %s)' % (enc_tree(tree if not isinstance(tree, tuple) else list(tree)), enc_join(days), m, lim)])
+        else:
+            case = gen_presynck(rng, m)
+            yield dict(case, tag='presynck-mlist')
+    # arrays with method lists and a limit
+    for _ in range(800 if big else 60):
+        arrs = [np.array([nan if rng.random() < 0.3 else rng.choice(VALS) for _ in range(rng.choice([0, 1, 2, 3, 5, 6]))], dtype=float) for _ in range(rng.choice([2, 3]))]
+        m = rand_mlist(rng, removing=False)
+        yield dict(tag='arrays-mlist', lines=['(align reindex %s (N I:%d) %s %s)' % (enc_tree(arrs), rng.choice([0, 2, 4, 7]), m, rng.choice(['N', 'I:1', 'I:2']))])
+    # (3) dict members keyed 'index' (a timeseries, a pd.Index, a scalar under that key) and pd.Index members
+    for _ in range(2500 if big else 150):
+        members, rel = rand_members(rng, rng.random() < 0.3)
+        under = rng.choice(['ts', 'ts', 'pi', 'scalar'])
+        x = members[0] if under == 'ts' else pd.DatetimeIndex([W.day(d) for d in rand_days(rng, 'overlap', [])]) if under == 'pi' else rng.choice(SCALARS)
+        rest = members[1:] if under == 'ts' else members
+        d_ = {'index': x, 'v': rest[0]} if rng.random() < 0.5 else {'v': rest[0], 'index': x}
+        others = rest[1:] + [rng.choice(SCALARS)] * rng.choice([0, 1])
+        shape = rng.choice(['top', 'in-list', 'in-dict'])
+        tree = dict(d_, **{k: v for k, v in zip('pq', others)}) if shape == 'top' else [d_] + others if shape == 'in-list' else {'n': d_, **{k: v for k, v in zip('pq', others)}}
+        how, m = rng.choice(HOWS), rng.choice(METHODS)
+        r = rng.random()
+        if r < 0.5:
+            yield dict(tag='index-key/%s/%s/sync' % (under, shape), lines=['(align sync %s %s %s %s)' % (enc_tree(tree), how, m, rng.choice(['ij', 'N']))])
+        elif r < 0.75:
+            yield dict(tag='index-key/%s/%s/reindex-how' % (under, shape), lines=['(align reindex %s %s %s)' % (enc_tree(tree), how, m)])
+        elif r < 0.9:
+            yield dict(tag='index-key/%s/%s/reindex-explicit' % (under, shape), lines=['(align reindex %s %s %s)' % (enc_tree(tree), enc_join(rand_days(rng, 'overlap', [])), m)])
+        else:
+            yield dict(tag='index-key/%s/%s/index' % (under, shape), lines=['(align index %s %s)' % (enc_tree(tree), how)])
+    # (4) presync(f)(*args, join=<name of a parameter>, **kwargs): the index is that argument's index
+    for _ in range(3000 if big else 200):
+        yield gen_presyncn(rng)
+
+
+def gen_presyncn(rng):
+    members, rel = rand_members(rng, rng.random() < 0.4)
+    n = rng.choice([2, 2, 3, 3, 4])
+    items = list(members)[:n]
+    while len(items) < n:
+        items.append(rng.choice(SCALARS))
+    rng.shuffle(items)
+    kind = rng.choice(['ts', 'ts', 'ts', 'ts', 'pi', 'dict-ts', 'dict-pi', 'array', 'scalar', 'ts-nested'])
+    k = rng.randrange(n)
+    if kind == 'ts':
+        cand = [i for i, x in enumerate(items) if isinstance(x, (pd.Series, pd.DataFrame))]
+        k = rng.choice(cand) if cand else k
+        if not cand:
+            items[k] = rand_series(rng, rand_days(rng, 'overlap', []), 0.3)
+    elif kind == 'pi':
+        items[k] = pd.DatetimeIndex([W.day(d) for d in rand_days(rng, rng.choice(['overlap', 'empty', 'overlap']), [])])
+    elif kind == 'dict-ts':
+        items[k] = {'index': rand_series(rng, rand_days(rng, 'overlap', []), 0.3), 'w': rng.choice(SCALARS)}
+    elif kind == 'dict-pi':
+        items[k] = {'w': rand_series(rng, rand_days(rng, 'overlap', []), 0.3), 'index': pd.DatetimeIndex([W.day(d) for d in rand_days(rng, 'overlap', [])])}
+    elif kind == 'array':
+        items[k] = np.array([rng.choice(VALS) for _ in range(rng.choice([0, 1, 2, 4]))], dtype=float)
+        if rng.random() < 0.6:   # arrays only: aligned at the end to the length of the named one
+            items = [x if i == k else np.array([rng.choice(VALS) for _ in range(rng.choice([0, 1, 3, 5]))], dtype=float) for i, x in enumerate(items)]
+    elif kind == 'scalar':
+        items[k] = rng.choice(SCALARS)
+    else:
+        j = (k + 1) % n
+        items[j] = [items[j], rand_series(rng, rand_days(rng, 'overlap', []), 0.3)]   # another argument holds a nested list
+    npos = rng.randint(0, n)
+    pos, kw = items[:npos], {'p%d' % i: items[i] for i in range(npos, n)}
+    m = rng.choice(METHODS + METHODS + [rand_mlist(rng)])
+    return dict(tag='presyncn/%s/%d+%d/%s' % (kind, npos, n - npos, mtag(m)),
+                lines=['(align presyncn %s %s %s %s)' % (enc_tree(tuple(pos)), enc_tree(kw), proto.hexs('p%d' % k), m)])
+
+
+def gen_presynck(rng, m=None):
     members, rel = rand_members(rng, rng.random() < 0.6)
     if rng.random() < 0.12:
         members = [np.array([nan if rng.random() < 0.25 else rng.choice(VALS) for _ in range(rng.choice([0, 1, 2, 3, 5]))], dtype=float) for _ in members]
@@ -246,14 +392,14 @@ def gen_presynck(rng):
     if kwargs and rng.random() < 0.3:
         k0 = next(iter(kwargs))
         kwargs[k0] = [kwargs[k0], rand_series(rng, rand_days(rng, 'overlap', []), 0.3)]
-    m = rng.choice(METHODS)
+    m = m or rng.choice(METHODS)
     if rel != 'arrays' and rng.random() < 0.25:   # an explicit DatetimeIndex for bare arrays alone is meaningless (the code raises assorted errors): not generated
         sp = rng.choice(['X', 'XS', 'XD'])
         join = enc_join(rand_days(rng, rng.choice(['overlap', 'empty', 'overlap']), []), sp)
         jt = 'explicit-' + sp
     else:
         join = jt = rng.choice(HOWS)
-    return dict(tag='presynck/%s/%d+%d/%s/%s' % (rel, len(pos), len(kwargs), jt, m),
+    return dict(tag='presynck/%s/%d+%d/%s/%s' % (rel, len(pos), len(kwargs), jt, mtag(m)),
                 lines=['(align presynck %s %s %s %s)' % (enc_tree(tuple(pos)), enc_tree(kwargs), join, m)])
 
 
@@ -269,6 +415,25 @@ def _f3(a, b, c):
 
 def _fv(*args, **kwargs):
     return (args, kwargs)
+
+
+def _g1(p0):
+    return (p0,)
+
+
+def _g2(p0, p1):
+    return (p0, p1)
+
+
+def _g3(p0, p1, p2):
+    return (p0, p1, p2)
+
+
+def _g4(p0, p1, p2, p3):
+    return (p0, p1, p2, p3)
+
+
+_GN = {1: _g1, 2: _g2, 3: _g3, 4: _g4}
 
 
 def snapshot_tree(x):
@@ -314,7 +479,25 @@ def run_line(state, sx):
         ch = None if args[3] == 'N' else args[3]
         res = pyg_base.df_sync(tree, dec_join(args[1]), dec_method(args[2]), ch)
     elif op == 'reindex':
-        res = pyg_base.df_reindex(tree, dec_join(args[1]), dec_method(args[2]))
+        res = pyg_base.df_reindex(tree, dec_join(args[1]), dec_method(args[2]), C12.dec_limit(args[3]) if len(args) > 3 else None)
+    elif op == 'presyncn':
+        kw = dec_tree(args[1])
+        if not isinstance(tree, tuple) or not isinstance(kw, dict):
+            return 'bad-op'
+        n = len(tree) + len(kw)
+        if list(kw) != ['p%d' % i for i in range(len(tree), n)] or n not in _GN:
+            return 'bad-op'
+        name = proto.unhex(args[2])
+        if name not in ['p%d' % i for i in range(n)]:
+            return 'bad-op'
+        before_kw = snapshot_tree(kw)
+        res = pyg_base.presync(_GN[n])(*tree, join=name, method=dec_method(args[3]), columns=False, **kw)
+        if not same_tree(tree, before) or not same_tree(kw, before_kw):
+            return 'violation input-modified'
+        res = (tuple(res[:len(tree)]), {k: v for k, v in zip(kw, res[len(tree):])})
+        if not (passthrough_ok(tree, res[0]) and passthrough_ok(kw, res[1])):
+            return 'violation structure-or-passthrough %s' % enc_tree(res)
+        return 'ok ' + enc_tree(res)
     elif op == 'presynck':
         kw = dec_tree(args[1])
         if not isinstance(tree, tuple) or not isinstance(kw, dict):
